@@ -59,6 +59,8 @@ pub struct Case {
     /// endless tail for stdin: this byte pattern repeats forever after `bytes` (C14); not sent to the model
     pub endless: Option<Vec<u8>>,
     pub expr: Option<String>,
+    /// raw extra command-line tokens (each its own block in the argument order): command lines that no `Spec` describes
+    pub xargs: Vec<String>,
 }
 
 pub fn hex(b: &[u8]) -> String {
@@ -85,33 +87,38 @@ impl Case {
     pub fn argv(&self, scratch: &str) -> Vec<String> {
         let s = &self.spec;
         let mut opts: Vec<Vec<String>> = vec![];
+        // which of an option's names (long name or visible alias) is written: derived from the shuffle key
+        let sh = self.shuffle;
+        let nm = |slot: u32, names: &[&str]| -> String {
+            if sh == 0 { names[0].to_string() } else { names[((sh >> (slot * 3)) as usize) % names.len()].to_string() }
+        };
         let mut one = |v: String| opts.push(vec![v]);
         if let Some(e) = &s.on_error {
             one(format!("--on-error={e}"));
         }
         // relative order of repeated --select / --sort-by / --set must be kept: emit each family as one block
         if !s.selects.is_empty() {
-            opts.push(s.selects.iter().map(|x| format!("--select={x}")).collect());
+            opts.push(s.selects.iter().enumerate().map(|(i, x)| format!("--{}={x}", nm(1 + (i as u32 % 2), &["select", "choose"]))).collect());
         }
         if let Some(f) = &s.filter {
-            opts.push(vec![format!("--filter={f}")]);
+            opts.push(vec![format!("--{}={f}", nm(3, &["filter", "where"]))]);
         }
         if let Some(f) = &s.split {
-            opts.push(vec![format!("--split-by={f}")]);
+            opts.push(vec![format!("--{}={f}", nm(4, &["split-by", "break-by"]))]);
         }
         match &s.group {
-            Some(Some(g)) => opts.push(vec![format!("--group-by={g}")]),
-            Some(None) => opts.push(vec!["--merge".to_string()]),
+            Some(Some(g)) => opts.push(vec![format!("--{}={g}", nm(5, &["group-by", "combine", "merge"]))]),
+            Some(None) => opts.push(vec![format!("--{}", nm(5, &["merge", "group-by", "combine"]))]),
             None => {}
         }
         if !s.sorts.is_empty() {
-            opts.push(s.sorts.iter().map(|x| format!("--sort-by={x}")).collect());
+            opts.push(s.sorts.iter().enumerate().map(|(i, x)| format!("--{}={x}", nm(6 + (i as u32 % 2), &["sort-by", "order-by"]))).collect());
         }
         if s.skip != 0 {
             opts.push(vec![format!("--skip={}", s.skip)]);
         }
         if let Some(t) = s.take {
-            opts.push(vec![format!("--take={t}")]);
+            opts.push(vec![format!("--{}={t}", nm(8, &["take", "limit"]))]);
         }
         if s.unique {
             opts.push(vec!["--unique".into()]);
@@ -163,6 +170,9 @@ impl Case {
         }
         if let Some(x) = s.cache {
             opts.push(vec![format!("--regular-expression-cache-size={x}")]);
+        }
+        for x in &self.xargs {
+            opts.push(vec![x.clone()]);
         }
         // argument order: a permutation of the blocks derived from `shuffle`
         if self.shuffle != 0 && opts.len() > 1 {
@@ -291,6 +301,16 @@ impl Case {
         if let Some(e) = &self.expr {
             t.push(format!("expr={}", hs(e)));
         }
+        for x in &self.xargs {
+            t.push(format!("xarg={}", hs(x)));
+        }
+        // the command line itself (after the program name): the model parses it with its own model of clap
+        // and uses the record it gets (`Jawk/Model/Args.lean`); the fields above stay as the readable form
+        if self.mode == "run" || self.mode.is_empty() {
+            let av = self.argv(scratch);
+            let toks: Vec<String> = av.iter().skip(1).map(|x| hs(x)).collect();
+            t.push(format!("argv={}", if toks.is_empty() { "-".to_string() } else { toks.join(",") }));
+        }
         // harness-only fields (ignored by the model)
         if !self.chunks.is_empty() {
             t.push(format!("chunks={}", self.chunks.iter().map(|c| c.to_string()).collect::<Vec<_>>().join(",")));
@@ -366,6 +386,7 @@ impl Case {
                     }
                 }
                 "expr" => c.expr = Some(uhs(v)),
+                "xarg" => c.xargs.push(uhs(v)),
                 "chunks" => c.chunks = v.split(',').filter_map(|x| x.parse().ok()).collect(),
                 "shuffle" => c.shuffle = v.parse().unwrap_or(0),
                 "endless" => c.endless = Some(unhex(v)),
